@@ -21,6 +21,7 @@ func init() {
 			c.run("C04-R3", "LITERAL: built-in tables and the table builder", c04R3)
 			c.run("C04-R4", "SIBLING/WHO-CALLS: escaper placement and connection writers", c04R4)
 			c.run("C04-R6", "GUARD-DOM: the length announced in a binary frame header is the length of the bytes written after it", c04FrameLen)
+			c.run("C04-R7", "FRESH: the sender's staging buffer is a fresh allocation whenever it is replaced", c04FreshStaging)
 			c.run("C04-R5", "GUARD-DOM: every exit of encoder/decoder accounts for all input; the stream wrappers pass only coded bytes", c04R5)
 		})
 }
@@ -139,7 +140,7 @@ func c04R2(c *Ctx) {
 				// the true edge returns data[i:] as second result, without error
 				okRet := false
 				for _, in := range eqSucc.Instrs {
-					if r, isR := in.(*ssa.Return); isR && len(r.Results) == 3 && isNilConst(r.Results[2]) {
+					if r, isR := in.(*ssa.Return); isR && len(r.Results) == 3 && isNilConst(retVal(r, 2)) {
 						if sl, isS := strip(r.Results[1]).(*ssa.Slice); isS && isVar("data")(sl.X) && sl.Low != nil && sameValue(sl.Low, x) && sl.High == nil {
 							okRet = true
 						}
@@ -152,7 +153,7 @@ func c04R2(c *Ctx) {
 			// idx == len(buf): return data[i+1:]
 			if lc, _ := callOf(y); lc != nil && calleeID(&lc.Call) == "builtin len" {
 				for _, in := range eqSucc.Instrs {
-					if r, isR := in.(*ssa.Return); isR && len(r.Results) == 3 && isNilConst(r.Results[2]) {
+					if r, isR := in.(*ssa.Return); isR && len(r.Results) == 3 && isNilConst(retVal(r, 2)) {
 						if sl, isS := strip(r.Results[1]).(*ssa.Slice); isS && isVar("data")(sl.X) && sl.Low != nil {
 							if bo, isB := sl.Low.(*ssa.BinOp); isB && bo.Op == token.ADD && isConstIntV(1)(bo.Y) {
 								full = true
@@ -657,11 +658,11 @@ func c04R5(c *Ctx) {
 	n := 0
 	eachInstr(f, func(in ssa.Instruction) {
 		r, ok := in.(*ssa.Return)
-		if !ok || len(r.Results) != 3 || !isNilConst(r.Results[2]) {
+		if !ok || len(r.Results) != 3 || !isNilConst(retVal(r, 2)) {
 			return
 		}
 		n++
-		if !isNilConst(r.Results[1]) {
+		if !isNilConst(retVal(r, 1)) {
 			// remaining = data[k:]
 			sl, ok := strip(r.Results[1]).(*ssa.Slice)
 			c.check(ok && isVar("data")(sl.X) && sl.High == nil, "unescapeData/remaining-is-tail", c.ipos(r), "'remaining' is a tail of the input", "'remaining' is not a tail of the input")
@@ -757,7 +758,7 @@ func c04R5(c *Ctx) {
 	rd := c.fn("escapeReader.Read")
 	eachInstr(rd, func(in ssa.Instruction) {
 		r, ok := in.(*ssa.Return)
-		if !ok || len(r.Results) != 2 || !isNilConst(r.Results[1]) {
+		if !ok || len(r.Results) != 2 || !isNilConst(retVal(r, 1)) {
 			return
 		}
 		good := false
@@ -851,4 +852,65 @@ func c04FrameLen(c *Ctx) {
 		}
 	}
 	c.check(okD, "sendData/header=len(escaped)", c.pos(v1.Pos()), "the protocol-1 binary header announces the length of the escaped bytes written after it", "the protocol-1 binary header does not announce the length of the escaped buffer it is followed by (the receiver cuts the escaped stream short)")
+}
+
+// c04FreshStaging: the sender's staging buffer is handed to the send stage by reference (the chunk travels as
+// data.data through sendDataChan and is read again, piece by piece, on the split-send path). It is therefore a fresh
+// allocation every time it is (re)placed: every store to sendDataWriter.buffer — and the one in its constructor — is
+// bytes.NewBuffer of a make([]byte, …) done right there, or the result of a package function that returns exactly
+// that on every path (two levels). A buffer taken from a pool or free list is storage the send stage may still be reading.
+func c04FreshStaging(c *Ctx) {
+	var fresh func(v ssa.Value, depth int) (bool, string)
+	fresh = func(v ssa.Value, depth int) (bool, string) {
+		for _, l := range origins(v, originOpts{}) {
+			call, idx := callOf(l.V)
+			if call == nil {
+				return false, "value " + l.V.String()
+			}
+			id := calleeID(&call.Call)
+			if id == "bytes.NewBuffer" {
+				if !isFreshBuffer(call.Call.Args[0]) {
+					return false, "bytes.NewBuffer over storage that is not allocated on the spot"
+				}
+				continue
+			}
+			g := call.Call.StaticCallee()
+			if g == nil || !c.inPkg(g) || len(g.Blocks) == 0 || depth >= 2 {
+				return false, "the result of " + id
+			}
+			okAll, why := true, ""
+			if idx < 0 {
+				idx = 0
+			}
+			eachInstr(g, func(x ssa.Instruction) {
+				if r, isR := x.(*ssa.Return); isR && idx < len(r.Results) && x.Block().Comment != "recover" {
+					if ok, w := fresh(retVal(r, idx), depth+1); !ok {
+						okAll, why = false, w
+					}
+				}
+			})
+			if !okAll {
+				return false, c.fnName(g) + " can return " + why
+			}
+		}
+		return true, ""
+	}
+	n := 0
+	for _, f := range c.AllFns {
+		eachInstr(f, func(in ssa.Instruction) {
+			st, ok := in.(*ssa.Store)
+			if !ok {
+				return
+			}
+			if nm, _ := fieldAddrName(st.Addr); nm != "sendDataWriter.buffer" {
+				return
+			}
+			n++
+			ok2, why := fresh(st.Val, 0)
+			c.check(ok2, "staging-buffer-fresh/"+c.fnName(f), c.ipos(st), "the staging buffer is a fresh allocation", "the staging buffer is not a fresh allocation ("+why+"): the send stage may still be reading the storage when the encoder fills it with the next chunk, and the bytes on the wire no longer decode to the payload")
+		})
+	}
+	if n < 2 {
+		c.undecided("staging-buffer-fresh/sites", "fewer placements of the staging buffer than expected")
+	}
 }
